@@ -750,9 +750,11 @@ class Circle(BaseConstraint):
             dataframe (used for scatter and contour plots) or matrix (used for images)
             containing measurement data
         """
-        self.center_x = center_x
-        self.center_y = center_y
-        self.radius = radius
+        # As floats: numpy integer scalars (e.g. read from a pixel array) keep
+        # their width, so radius**2 or y2 - y1 would wrap around.
+        self.center_x = float(center_x)
+        self.center_y = float(center_y)
+        self.radius = float(radius)
         self.loc = loc
 
     def draw(self, ax, **kwargs):
@@ -836,11 +838,11 @@ class Cylinder(BaseConstraint):
             dataframe (used for scatter and contour plots) or matrix (used for images)
             containing measurement data
         """
-        self.center_x = center_x
-        self.center_y = center_y
-        self.center_z = center_z
-        self.radius = radius
-        self.height = height
+        self.center_x = float(center_x)
+        self.center_y = float(center_y)
+        self.center_z = float(center_z)
+        self.radius = float(radius)
+        self.height = float(height)
         self.loc = loc
         if "axis" in kwargs.keys():
             self.axis = kwargs["axis"]
@@ -972,10 +974,10 @@ class Line(BaseConstraint):
             dataframe (used for scatter and contour plots) or matrix (used for images)
             containing measurement data
         """
-        self.x1 = x1
-        self.x2 = x2
-        self.y1 = y1
-        self.y2 = y2
+        self.x1 = float(x1)
+        self.x2 = float(x2)
+        self.y1 = float(y1)
+        self.y2 = float(y2)
 
     def draw(self, ax, **kwargs):
         """
@@ -1054,9 +1056,9 @@ class Parabola(BaseConstraint):
             dataframe (used for scatter and contour plots) or matrix (used for images)
             containing measurement data
         """
-        self.h = h
-        self.k = k
-        self.a = a
+        self.h = float(h)
+        self.k = float(k)
+        self.a = float(a)
         self.loc = loc
 
     def draw(self, ax, **kwargs):
@@ -1140,12 +1142,12 @@ class Ellipse(BaseConstraint):
             dataframe (used for scatter and contour plots) or matrix (used for images)
             containing measurement data
         """
-        self.center_x = center_x
-        self.center_y = center_y
-        self.width = width
-        self.height = height
+        self.center_x = float(center_x)
+        self.center_y = float(center_y)
+        self.width = float(width)
+        self.height = float(height)
         self.loc = loc
-        self.angle = angle
+        self.angle = float(angle)
         self.half_horizontal_axis = self.width / 2
         self.half_vertical_axis = self.height / 2
 
